@@ -82,10 +82,10 @@ def classify(line):
 
 
 CFG = dict(
-    imports=["From Verif.C14 Require Import Model Spec.", "Open Scope Z_scope."],
+    imports=["From Verif.C14 Require Import Model Spec Cases.", "Open Scope Z_scope."],
     checker="check_case",
-    n=dict(quick=400, thorough=20000),
-    shard=100,
+    n=dict(quick=300, thorough=6000),
+    shard=75,
     classify=classify,
     rule="1-3 Scan() calls of the real Scanner+LivenessScanner over a table of 1-8 groups (normal entries of TCP/UDP/ICMP/"
          "ICMPv6/SCTP/GRE/protocol 0 in every TCP flag shape incl. DSR and rst_seen timestamp, NAT forward/reverse pairs "
@@ -100,7 +100,7 @@ CFG = dict(
              "hand-written model coq/theories/C14/Model.v; its userspace half (entry_done, judge, handle_nat, drain) is tied "
              "to felix/bpf/conntrack/{cleanup,scanner}.go by this correspondence run",
              "KERNEL SIDE NOT EXECUTED: Model.v `clean` (process_ccq_entry) and `packet` (calico_ct_lookup refresh) are "
-             "hand translations of felix/bpf-gpl/conntrack_cleanup.c and conntrack.h lines 786-787 / 820-835, assumed atomic "
+             "hand translations of felix/bpf-gpl/conntrack_cleanup.c and conntrack.h lines 786-787 / 813-835, assumed atomic "
              "per invocation; tied to the tree only by a hash of the normalised C text",
              "Go driver harness/C14 (overlay build, tag verif): its in-memory conntrack map, clock shim and recording cleaner"],
     assumptions=["each process_ccq_entry callback and each packet's conntrack update is atomic (the window between the "
@@ -144,6 +144,32 @@ def run(ctx):
         return vlib.standard_flow(ctx, CFG)
     finally:
         vlib.finish = orig
+
+
+def replay(ctx, path):
+    """./check C14 --replay <file>: re-evaluate the recorded case (model vs implementation observables, spec oracle)
+    inside Coq and print the verdict; for the C-source tie print the recorded hashes against the tree's."""
+    import json
+    d = json.load(open(path))
+    if d.get("kind") == "translation-tie-broken":
+        print(json.dumps(dict(recorded=d, now=c_fingerprints(ctx.repo), expected=C_EXPECTED), indent=1))
+        return 0
+    case = d.get("case") or d.get("first_case")
+    if not case:
+        print(open(path).read())
+        return 0
+    ok, log = vlib.coq_build(["theories/Common/CaseLib.vo"] + vlib.prop_targets("C14"))
+    if not ok:
+        print(log[-3000:])
+        return 1
+    res, _ = vlib.coq_eval_cases(ctx, CFG["imports"], CFG["checker"], [case["coq"]])
+    if not res:
+        print("replay: model agrees with the recorded implementation output and the specification oracle accepts it")
+        return 0
+    for (_, agree, okk) in res:
+        print("replay: model_agrees=%s oracle_accepts=%s tags=%s" % (agree, okk, case.get("tags")))
+        print(case["coq"])
+    return 1
 
 
 MANIFEST = dict(
